@@ -34,7 +34,15 @@ func WriteAccumulator(w CSV, aggr *aggregation.AccumulatingGroup) error {
 
 	row := make([]string, aggr.ColCount())
 	for _, group := range aggr.Groups(sorting.ByName) {
-		copy(row, group.Parts())
+		// row is reused: an empty group key has no parts, so clear what the previous row left
+		parts := group.Parts()
+		for i := 0; i < aggr.GroupColCount(); i++ {
+			if i < len(parts) {
+				row[i] = parts[i]
+			} else {
+				row[i] = ""
+			}
+		}
 		copy(row[aggr.GroupColCount():], aggr.DataNoCopy(group))
 		if err := w.Write(row); err != nil {
 			return err
